@@ -544,7 +544,8 @@ class Accumulator:
         self._n += 1
 
         if self._n == 1:
-            self._running_var = x * 0.0
+            # (double precision whatever the width of the first frame)
+            self._running_var = x * np.float64(0.0)
             self._running_mean = self._running_var + x
         else:
             self._running_var += ((x - self._running_mean) *
